@@ -16,6 +16,7 @@ package c08
 import (
 	"bufio"
 	"bytes"
+	"errors"
 	"fmt"
 	"io"
 	"math"
@@ -71,7 +72,12 @@ type fragReader struct {
 	rnd      *rand.Rand
 	reads    int
 	eofReads int
+	endMode  int // what the exhausted reader answers: 0 EOF, 1 connection reset, 2 panic (read attempt abandoned midway)
 }
+
+type abandonSentinel struct{}
+
+var errConnReset = errors.New("read: connection reset by peer")
 
 func newFragReader(data []byte, pl readPlan) *fragReader {
 	f := &fragReader{data: data, kind: pl.Kind, k: pl.K}
@@ -90,6 +96,12 @@ func (f *fragReader) Read(p []byte) (int, error) {
 		f.eofReads++
 		if f.eofReads > len(f.data)+64 {
 			panic(loopSentinel{}) // the parser keeps asking after EOF: break its loop
+		}
+		switch f.endMode {
+		case 1:
+			return 0, errConnReset
+		case 2:
+			panic(abandonSentinel{})
 		}
 		return 0, io.EOF
 	}
@@ -215,9 +227,35 @@ func drain(stage *string, name string, rd io.Reader, limit int) (int, error) {
 var readerOps = []string{"Request.ReadLimitBody", "Response.ReadLimitBody", "RequestHeader.Read", "ResponseHeader.Read",
 	"RequestHeader.ReadTrailer", "ResponseHeader.ReadTrailer", "Request.ContinueReadBodyStream", "Response.ReadLimitBody(StreamBody)"}
 
-// runReader executes op on input under the given plan.
-func runReader(op string, input []byte, pl readPlan) (res result) {
+// objs are the fasthttp objects a reader op works on: fresh ones for the plain
+// monitors, ones with a history (abandoned earlier reads) for the re-use monitor.
+type objs struct {
+	req   *fasthttp.Request
+	resp  *fasthttp.Response
+	reqH  *fasthttp.RequestHeader
+	respH *fasthttp.ResponseHeader
+}
+
+func newObjs() *objs {
+	return &objs{req: &fasthttp.Request{}, resp: &fasthttp.Response{}, reqH: &fasthttp.RequestHeader{}, respH: &fasthttp.ResponseHeader{}}
+}
+
+func (o *objs) reset() {
+	o.req.Reset()
+	o.resp.Reset()
+	o.reqH.Reset()
+	o.respH.Reset()
+}
+
+// runReader executes op on input under the given plan on fresh objects.
+func runReader(op string, input []byte, pl readPlan) result {
+	return runReaderOn(newObjs(), op, input, pl, 0)
+}
+
+// runReaderOn executes op on input under the given plan on the given objects.
+func runReaderOn(o *objs, op string, input []byte, pl readPlan, endMode int) (res result) {
 	fr := newFragReader(input, pl)
+	fr.endMode = endMode
 	var br *bufio.Reader
 	if pl.Buf == 4096 {
 		br = bufPool4096.Get().(*bufio.Reader)
@@ -234,6 +272,10 @@ func runReader(op string, input []byte, pl readPlan) (res result) {
 				res.Loop = true
 				return
 			}
+			if _, ok := p.(abandonSentinel); ok {
+				res.Err = "abandoned"
+				return
+			}
 			res.Panic = fmt.Sprint(p)
 		}
 	}()
@@ -242,7 +284,7 @@ func runReader(op string, input []byte, pl readPlan) (res result) {
 	consumed := func() int { return fr.pos - br.Buffered() }
 	switch op {
 	case "Request.ReadLimitBody":
-		var req fasthttp.Request
+		req := o.req
 		err = req.ReadLimitBody(br, pl.MaxBody)
 		if err == nil && req.MayContinue() {
 			res.Stage = "Request.ContinueReadBody"
@@ -291,8 +333,8 @@ func runReader(op string, input []byte, pl readPlan) (res result) {
 			req.RemoveMultipartFormFiles()
 		}
 	case "Response.ReadLimitBody":
-		var resp fasthttp.Response
-		resp.SkipBody = pl.SkipBody
+		resp := o.resp
+		resp.SkipBody, resp.StreamBody = pl.SkipBody, false
 		err = resp.ReadLimitBody(br, pl.MaxBody)
 		res.Consumed = consumed()
 		if err == nil {
@@ -306,28 +348,28 @@ func runReader(op string, input []byte, pl readPlan) (res result) {
 			})
 		}
 	case "RequestHeader.Read":
-		var h fasthttp.RequestHeader
+		h := o.reqH
 		err = h.Read(br)
 		res.Consumed = consumed()
 		if err == nil {
-			snapReqHeader(&sb, &h)
+			snapReqHeader(&sb, h)
 		}
 	case "ResponseHeader.Read":
-		var h fasthttp.ResponseHeader
+		h := o.respH
 		err = h.Read(br)
 		res.Consumed = consumed()
 		if err == nil {
-			snapRespHeader(&sb, &h)
+			snapRespHeader(&sb, h)
 		}
 	case "RequestHeader.ReadTrailer":
-		var h fasthttp.RequestHeader
+		h := o.reqH
 		err = h.ReadTrailer(br)
 		res.Consumed = consumed()
 		if err == nil {
 			h.VisitAll(func(k, v []byte) { fmt.Fprintf(&sb, "%q=%q;", k, v) })
 		}
 	case "ResponseHeader.ReadTrailer":
-		var h fasthttp.ResponseHeader
+		h := o.respH
 		err = h.ReadTrailer(br)
 		res.Consumed = consumed()
 		if err == nil {
@@ -335,7 +377,7 @@ func runReader(op string, input []byte, pl readPlan) (res result) {
 		}
 	case "Request.ContinueReadBodyStream":
 		// panic / termination monitors only
-		var req fasthttp.Request
+		req := o.req
 		res.Stage = "RequestHeader.Read"
 		err = req.Header.Read(br)
 		if err == nil {
@@ -354,7 +396,7 @@ func runReader(op string, input []byte, pl readPlan) (res result) {
 		}
 		res.Consumed = consumed()
 	case "Response.ReadLimitBody(StreamBody)":
-		var resp fasthttp.Response
+		resp := o.resp
 		resp.StreamBody = true
 		resp.SkipBody = pl.SkipBody
 		err = resp.ReadLimitBody(br, pl.MaxBody)
@@ -617,6 +659,8 @@ var opTable = func() []opSpec {
 	for _, v := range valueOps {
 		add(1, v, false)
 	}
+	add(1, "split:Request", false)
+	add(1, "split:Response", false)
 	return t
 }()
 
@@ -628,6 +672,7 @@ func TestC08(t *testing.T) {
 	r.Assume("a successful read during which the underlying reader had to report EOF is delimited by connection close (identity response bodies): consuming everything is legitimate, such cases are excluded from the suffix oracle and counted as skipped_eof_delimited")
 	r.Assume("multipart/form-data requests with Content-Length are pre-parsed by mime/multipart straight from the connection; it may stop anywhere between the closing boundary and head+Content-Length, so for those only the bound consumed <= head+Content-Length is judged (under-reading is not part of C08; counted as multipart_relaxed)")
 	r.Assume("under-consumption of a valid message is counted (underread_valid) but not judged: the property only forbids consuming beyond the message; Response.SkipBody=true is only used with messages that carry no body on the wire (HEAD semantics)")
+	r.Assume("re-use monitor: objects with a history of abandoned reads must behave like fresh ones; Reset() is always applied before ReadTrailer (which adds to existing fields by design) and before the low-level RequestHeader.Read+ContinueReadBodyStream pair (its documentation leaves resetting to the caller; without Reset a stale body stream of an abandoned attempt is still attached), otherwise in half of the cases")
 	r.Assume("streaming readers (ContinueReadBodyStream, Response.StreamBody) are watched for panics and non-termination only")
 
 	n := r.N(400_000, 8_000_000)
@@ -650,7 +695,9 @@ func TestC08(t *testing.T) {
 			s.op.Store(spec.name)
 			s.cur.Store(int64(i + 1))
 			s.beat.Add(1)
-			if spec.reader {
+			if strings.HasPrefix(spec.name, "split:") {
+				splitCase(r, i, strings.TrimPrefix(spec.name, "split:"))
+			} else if spec.reader {
 				readerCase(r, i, spec.name)
 			} else {
 				valueCase(r, i, spec.name)
@@ -666,6 +713,9 @@ func TestC08(t *testing.T) {
 	r.Require("suffix_rereads", n/100)
 	r.Require("valid_messages_consumption_checked", n/100)
 	r.Require("value_parser_calls", n/10)
+	r.Require("reused_object_reads", n/4)
+	r.Require("split_messages", n/8)
+	r.Require("split_accepted_bodies_checked", n/16)
 }
 
 func valueSeed(rnd *rand.Rand, op string) []byte {
@@ -790,7 +840,13 @@ func readerCase(r *mon.Run, i int, op string) {
 	defer func() {
 		r.Case(fmt.Sprintf("%s/%s/mut=%d/buf=%d/plan=%d/max=%d/%s/skip=%v", op, seed.desc, min(nm, 4), bucket(pl.Buf), pl.Kind, bucket(pl.MaxBody), outcome, pl.SkipBody), nontrivial)
 	}()
-	if !report("original", I, res) || !res.OK {
+	if !report("original", I, res) {
+		return
+	}
+	if rnd.Intn(2) == 0 {
+		reuseCheck(r, i, rnd, op, I, pl, res, streaming, payload, report)
+	}
+	if !res.OK {
 		return
 	}
 	r.Event("reads_succeeded", 1)
@@ -904,5 +960,54 @@ func readerCase(r *mon.Run, i int, op string) {
 			r.Event("suffix_run_touched_eof", 1)
 		}
 		check("suffix", Q, res3)
+	}
+}
+
+// reuseCheck repeats the read on objects with a history - earlier read attempts
+// that were abandoned midway (EOF, connection reset, or never resumed), with or
+// without Reset() - and compares with what fresh objects gave.
+func reuseCheck(r *mon.Run, i int, rnd *rand.Rand, op string, I []byte, pl readPlan, fresh result, streaming bool,
+	payload func(map[string]any) map[string]any, report func(string, []byte, result) bool) {
+	o := newObjs()
+	var hist []string
+	for k := 1 + rnd.Intn(2); k > 0; k-- {
+		other := readerSeed(rnd, op).b
+		cut := 1 + rnd.Intn(len(other))
+		if he := headEnd(other); he > 2 && rnd.Intn(3) != 0 {
+			cut = 1 + rnd.Intn(he-1) // inside the head
+		}
+		end := rnd.Intn(3)
+		hp := genPlan(rnd)
+		hp.Buf, hp.SkipBody = 4096, pl.SkipBody
+		runReaderOn(o, op, other[:cut], hp, end)
+		hist = append(hist, fmt.Sprintf("%d of %d bytes then %s", cut, len(other), []string{"EOF", "reset", "abandoned"}[end]))
+	}
+	// ReadTrailer adds to the fields already present (by design), and
+	// RequestHeader.Read + ContinueReadBodyStream is the low-level pair whose
+	// documentation leaves resetting the Request to the caller: always Reset there.
+	if strings.Contains(op, "Trailer") || op == "Request.ContinueReadBodyStream" || rnd.Intn(2) == 0 {
+		o.reset()
+		hist = append(hist, "Reset")
+	}
+	res2 := runReaderOn(o, op, I, pl, 0)
+	r.Event("reused_object_reads", 1)
+	if !report("reused-object", I, res2) || streaming {
+		return
+	}
+	pay := func() map[string]any {
+		return payload(map[string]any{"history": hist, "fresh": fresh, "reused": res2})
+	}
+	switch {
+	case res2.OK != fresh.OK:
+		r.Violation(i, "reused-object-changes-verdict", fmt.Sprintf("%s on %s: fresh object ok=%v (%s), object with history %v ok=%v (%s)", op, q(I), fresh.OK, fresh.Err, hist, res2.OK, res2.Err), pay())
+	case !fresh.OK:
+	case res2.Snap != fresh.Snap:
+		r.Violation(i, "reused-object-changes-result", fmt.Sprintf("%s on %s: result differs between a fresh object and one with history %v:\n %s\n %s", op, q(I), hist, fresh.Snap, res2.Snap), pay())
+	case res2.Consumed != fresh.Consumed && !fresh.Relaxed:
+		key := "reused-object-changes-consumption"
+		if res2.Consumed > fresh.Consumed {
+			key = "overread:reused-object"
+		}
+		r.Violation(i, key, fmt.Sprintf("%s on %s: fresh object consumed %d bytes, object with history %v consumed %d", op, q(I), fresh.Consumed, hist, res2.Consumed), pay())
 	}
 }
